@@ -2,7 +2,7 @@
 """Regenerates MANIFEST.json from tools/manifest_src.py (single source of truth for the per-property texts)."""
 import json, os, sys
 sys.path.insert(0, os.path.dirname(os.path.abspath(__file__)))
-from manifest_src import CHECKS, NOT_APPLICABLE, HOOK_COMMITS
+from manifest_src import CHECKS, NOT_APPLICABLE, HOOK_COMMITS, READY
 V = os.path.dirname(os.path.dirname(os.path.abspath(__file__)))
 m = {
  "version": 1,
@@ -26,7 +26,7 @@ import glob
 have = {c["property_id"] for c in CHECKS}
 for f in sorted(glob.glob(os.path.join(V, "checks", "*.manifest.json"))):
     c = json.load(open(f))
-    if c["property_id"] not in have:
+    if c["property_id"] not in have and c["property_id"] in READY:
         CHECKS.append(c); have.add(c["property_id"])
 CHECKS.sort(key=lambda c: c["property_id"])
 m["engines"][0]["serves_properties"] = [c["property_id"] for c in CHECKS]
@@ -45,4 +45,4 @@ for c in CHECKS:
         "technique": c["technique"],
     })
 json.dump(m, open(os.path.join(V, "MANIFEST.json"), "w"), indent=1)
-print("MANIFEST.json: %d checks, %d not_applicable" % (len(m["checks"]), len(NOT_APPLICABLE)))
+print("MANIFEST.json: %d checks, %d not_applicable" % (len(m["checks"]), len(m["not_applicable"])))
